@@ -129,6 +129,9 @@ def _layer_scalar(self, start, end, value):
     if len(deltas) > 0:
         self._data = deltas.sort_index().to_frame()
         self._valid_deltas = True
+    else:
+        self._data = None
+        self._valid_deltas = False
     self._valid_values = False
     return self
 
